@@ -979,3 +979,7 @@ package schema
 
 // The package-level meta-schemas are built by their initialisers.
 //@ axiom metaSchemasExist: schemaSchema != nil && scopeScopeSchema != nil && stepOutputSchema != nil
+
+// The run table lock is never left held (a later call for the same step would block forever).
+//@ func CallableStepSchema.setupStepData(s, runID) -> res
+//@   ensures !locked(s)
